@@ -7,7 +7,7 @@ through a generated .service file:
 It appends one line to the start log, registers with the harness over the control
 socket and then does what it is told, one JSON command per line:
 
-    hello                     connect to $DBUS_STARTER_ADDRESS, Hello          -> {"unique": ...}
+    hello {fds}               connect to $DBUS_STARTER_ADDRESS (fds: negotiate unix-fd passing), Hello -> {"unique": ...}
     send  {hex}               write these bytes to the bus connection          -> {}
     sync                      GetId round trip; everything received so far     -> {"msgs": [hex...], "closed": bool}
     close                     close the bus connection                         -> {}
@@ -39,7 +39,7 @@ def main():
         cmd = json.loads(line)
         op = cmd["op"]
         if op == "hello":
-            conn = rawbus.RawConn(os.environ["DBUS_STARTER_ADDRESS"])
+            conn = rawbus.RawConn(os.environ["DBUS_STARTER_ADDRESS"], want_fds=bool(cmd.get("fds")))
             conn.serial = 1000000
             r = conn.hello()
             say({"unique": conn.unique, "ok": r is not None and r.mtype == rawbus.METHOD_RETURN})
